@@ -229,17 +229,29 @@ func RuleB2(c *core.Ctx) {
 	const rule = "B2"
 	p := c.P
 	owner := map[*types.Var]string{}
-	for _, f := range []string{"accountType", "name", "segments"} {
-		if fv := p.Field(pkgAccount, "Account", f); fv != nil {
-			owner[fv] = "(*lib/model/account.Registry).getOrCreatePath"
-		}
-	}
-	if fv := p.Field(pkgCommodity, "Commodity", "name"); fv != nil {
-		owner[fv] = "(*lib/model/commodity.Registry).Get"
-	}
+	// every field of the two interned struct types, enumerated from the type
+	// (a field added later is covered without touching this rule): the value
+	// receiver methods of Account and Commodity copy the whole struct without a
+	// lock, so a write after publication races with them whatever lock it holds
 	isCurrency := p.Field(pkgCommodity, "Commodity", "IsCurrency")
 	segments := p.Field(pkgAccount, "Account", "segments")
-	if len(owner) != 4 || isCurrency == nil {
+	for _, tn := range []struct{ pkg, typ, owner string }{
+		{pkgAccount, "Account", "(*lib/model/account.Registry).getOrCreatePath"},
+		{pkgCommodity, "Commodity", "(*lib/model/commodity.Registry).Get"},
+	} {
+		nt := p.NamedType(tn.pkg, tn.typ)
+		if nt == nil {
+			continue
+		}
+		if st, ok := nt.Underlying().(*types.Struct); ok {
+			for i := 0; i < st.NumFields(); i++ {
+				if st.Field(i) != isCurrency {
+					owner[st.Field(i)] = tn.owner
+				}
+			}
+		}
+	}
+	if len(owner) < 4 || isCurrency == nil || segments == nil {
 		c.Anchor(rule, "account.Account.{accountType,name,segments} / commodity.Commodity.{name,IsCurrency}")
 		return
 	}
@@ -656,7 +668,7 @@ func RuleG3(c *core.Ctx) {
 				} else if w := writesThrough(p, t, args[i].stage, args[j].stage); w == "" {
 					c.Ob(rule, key, pl.call.Pos(), fname, core.Discharged, "shared configuration object: no callback of either stage stores into it")
 				} else {
-					c.Ob(rule, key, pl.call.Pos(), fname, core.Violated, w+"; "+ "an object of type "+typeShort(t)+" is handed to two stages of one Process call; the stages run concurrently and the type is not known to be synchronised or immutable")
+					c.Ob(rule, key, pl.call.Pos(), fname, core.Violated, w+"; "+"an object of type "+typeShort(t)+" is handed to two stages of one Process call; the stages run concurrently and the type is not known to be synchronised or immutable")
 				}
 			}
 		}
